@@ -594,6 +594,12 @@ class CodecInterp(Interp):
             if 'Hashable' in names and not isinstance(v, (SymSeq, SymMap)):
                 return True
             return any(n in pt for n in names)
+        if isinstance(v, Obj) and 'Hashable' in names:
+            # an instance is hashable unless its class defines __eq__ without __hash__ (Python then sets __hash__ to None)
+            if v.cls.lookup('__hash__') is not None or v.cls.lookup('__eq__') is None:
+                return True
+        if isinstance(v, dict) and 'Hashable' in names and set(names) == {'Hashable'}:
+            return False
         return Interp.nat_isinstance(self, args, kwargs)
 
     def nat_str(self, args, kwargs):
